@@ -259,7 +259,8 @@ class Engine:
         if not isinstance(v, VUnion):
             return [(p, v)]
         t = simp(v.t)
-        ck = 'kinds:' + t.sexpr()
+        ck = 'kinds:%d' % t.get_id()
+        p.ghost.setdefault('keep', []) if False else None
         kk = self.known_kind(p, v.t, t)
         if z3.is_app(t) and t.decl().name().startswith('v_'):
             kinds = [t.decl().name()[2:]]
@@ -298,6 +299,7 @@ class Engine:
                     raise Unsupported('field %s: too many possible kinds %s (contract lacks a type fact)' % (v.desc, kinds))
         p.ghost = dict(p.ghost)
         p.ghost[ck] = list(kinds)
+        p.ghost[ck + '#term'] = t       # keeps the term alive: its id cannot be recycled
         out = []
         single = len(kinds) == 1
         for k in kinds:
